@@ -2,7 +2,7 @@
 (***************************************************************************)
 (* C14, trace validation.  Each line of File is one call of the real       *)
 (* string.find / match / gmatch (iterated to exhaustion) / gsub:           *)
-(*   [id, fn, s, p, i, repl, n, o]                                         *)
+(*   [id, fn, s, p, i, repl, n, o] (+ s2, k, mode for fn = "gmatchiter")                                       *)
 (* s, p: byte sequences; i: <<"nil">> or <<"n", init>>; repl: <<"s",bytes>>*)
 (* <<"t",map>> <<"f",map>> (gsub only); n: <<"nil">> or <<"n", max>>;      *)
 (* o: what the real function returned, in the result encoding of module    *)
@@ -26,19 +26,28 @@ Spec == Init /\ [][Next]_vars
 
 InitOf(d) == IF d.i[1] = "n" THEN d.i[2] ELSE 1
 
+(* two iterators (same pattern, subjects s and s2) stepped alternately k    *)
+(* times each, by hand: neither disturbs the other                         *)
+IterExp(d) ==
+    LET a == GMatchCalls(d.s, d.p, d.k)
+        b == GMatchCalls(d.s2, d.p, d.k)
+    IN IF a[1] = "err" THEN a ELSE IF b[1] = "err" THEN b ELSE <<"i", a[2], b[2]>>
+
 Exp(d) ==
     CASE d.fn = "find" -> StrFind(d.s, d.p, InitOf(d))
       [] d.fn = "match" -> StrMatch(d.s, d.p, InitOf(d))
       [] d.fn = "gmatch" -> StrGMatch(d.s, d.p)
+      [] d.fn = "gmatchiter" -> IterExp(d)
       [] OTHER -> StrGSub(d.s, d.p, d.repl, d.n)
 
 NoMatchOf(d) ==
     CASE d.fn \in {"find", "match"} -> <<"nil">>
       [] d.fn = "gmatch" -> <<"g", <<>>>>
+      [] d.fn = "gmatchiter" -> <<"i", [i \in 1..d.k |-> <<"end">>], [i \in 1..d.k |-> <<"end">>]>>
       [] OTHER -> <<"r", d.s, 0, <<>>>>
 
 Malformed(d) ==
-    \/ ~WellFormed(d.p, d.fn # "gmatch")
+    \/ ~WellFormed(d.p, d.fn \notin {"gmatch", "gmatchiter"})
     \/ (d.fn = "gsub" /\ d.repl[1] = "s" /\ ReplDangling(d.repl[2], 1))
 
 Verdict ==
